@@ -13,7 +13,8 @@
    on every run by harness/c02.py. *)
 From Coq Require Import ZArith List Permutation Sorting.Sorted.
 From PF Require Import Gen.Tables Lib.ListX Model.Ragged Model.Mapper Model.MapperSpec Model.Converter
-  Model.ConverterSpec Model.ConverterRun Proofs.MapperProofs Proofs.ConverterProofs Legacy.MapperLegacy.
+  Model.ConverterSpec Model.ConverterRun Model.DatasetInit Proofs.MapperProofs Proofs.ConverterProofs
+  Proofs.DatasetInitProofs Legacy.MapperLegacy.
 Import ListNotations.
 
 (* ---- index labels do not matter ------------------------------------------ *)
@@ -226,6 +227,37 @@ Theorem converter_state_is_fixed_point : forall (L : Type) (leqb : L -> L -> boo
 Proof. intros L leqb target df t k frames H Hc. exact (later_calls_identical _ _ _ _ _ _ H Hc). Qed.
 Print Assumptions converter_state_is_fixed_point.
 
+(* ---- Dataset(...): which argument combinations are accepted ------------------- *)
+(* Model/DatasetInit.v mirrors Dataset.__init__ and canonicalize(_and_validate)_col_to_pattern of dataset.py check
+   by check (a raise is None); the pattern tables come from Gen/Tables.v.  The constructor accepts exactly the
+   arguments described by init_accepted: a split column that exists, has no stype and holds only SPLIT_TO_NUM
+   values; a target that has a stype other than multicategorical; every column with a stype present in the frame;
+   and, per configuration argument, either one object for all columns of its stype (of the required type, or None
+   where None is allowed, or anything if there is no such column) or a dict all of whose values -- also under keys
+   that are not columns of that stype -- are well-typed and which, where None is not allowed, mentions every column.
+   C02 itself demands no raise: harness/c02.py compares this table with /repo on the guard scenarios only where the
+   implementation raised, and on every generated frame (accepted, with the canonical dictionaries compared). *)
+Theorem dataset_init_decision_table : forall a, (exists c, dataset_init a = Some c) <-> init_accepted a.
+Proof. exact dataset_init_decision. Qed.
+Print Assumptions dataset_init_decision_table.
+
+Theorem pattern_argument_decision_table : forall (V : Type) pn (arg : pattern_arg V) cts,
+  (exists d, canonicalize_and_validate pn arg cts = Some d) <-> pattern_accepted pn arg cts.
+Proof. intros. apply pattern_decision. Qed.
+Print Assumptions pattern_argument_decision_table.
+
+(* one object configures every column of the stype; a dict keeps what it says *)
+Theorem canonical_config_single : forall (V : Type) pn (p : pat V) cts d c,
+  canonicalize_and_validate pn (ASingle p) cts = Some d -> In c (columns_of (pattern_stype pn) cts) ->
+  pat_lookup c d = Some p.
+Proof. intros. eapply canonical_single; eassumption. Qed.
+Print Assumptions canonical_config_single.
+
+Theorem canonical_config_dict : forall (V : Type) pn (d0 : list (name * pat V)) cts d c v,
+  canonicalize_and_validate pn (ADict d0) cts = Some d -> pat_lookup c d0 = Some v -> pat_lookup c d = Some v.
+Proof. intros. eapply canonical_dict_given; eassumption. Qed.
+Print Assumptions canonical_config_dict.
+
 (* ---- task type and class count ---------------------------------------------- *)
 (* numerical target -> regression; categorical with exactly 2 listed classes ->
    binary, with more -> multiclass, with fewer -> the assertion fails; any other
@@ -302,3 +334,16 @@ Example later_calls_example :
   | None => False
   end.
 Proof. vm_compute. reflexivity. Qed.
+
+Example dataset_init_example :
+  let a := MkArgs [nm [120]; nm [109]; nm [116]; nm [115]]
+                  [(nm [109], st_multicategorical); (nm [120], st_numerical); (nm [116], st_timestamp)]
+                  (Some (nm [120])) (Some (nm [115])) [0; 2; 1]
+                  (ASingle (PVal [124])) (ADict []) (ASingle PNone) (ASingle PNone) (ADict []) in
+  init_accepted a /\
+  option_map (fun c => (c_sep c, c_fmt c)) (dataset_init a) = Some ([(nm [109], PVal [124])], [(nm [116], PNone)]) /\
+  dataset_init (MkArgs [nm [120]] [(nm [120], st_multicategorical)] (Some (nm [120])) None []
+                       (ASingle PNone) (ASingle PNone) (ASingle PNone) (ASingle PNone) (ASingle PNone)) = None.
+Proof.
+  cbv zeta. split; [apply dataset_init_decision; eexists; vm_compute; reflexivity|]. split; vm_compute; reflexivity.
+Qed.
